@@ -681,6 +681,10 @@ ssize_t ZCK_PUBLIC_API zck_get_lead_length(zckCtx *zck) {
 ssize_t ZCK_PUBLIC_API zck_get_data_length(zckCtx *zck) {
     VALIDATE_INT(zck);
     zckChunk *idx = zck->index.first;
+    if(idx == NULL) {
+        set_error(zck, "Header hasn't been read yet");
+        return -1;
+    }
     while(idx->next != NULL)
         idx = idx->next;
     return idx->start + idx->comp_length;
